@@ -48,6 +48,13 @@ def check(repo: Repo, rep: Report) -> None:
                    f"element): pending-ness of an element is not decided by a flag, or superseded timers are not invalidated")
             continue
         idc, flag = ids[0], present[0]
+        # nothing is pending before the first element: the presence flag starts False
+        inits_ = [n_.value for n_ in root.direct_nodes() if isinstance(n_, (ast.Assign, ast.AnnAssign)) and n_.value is not None
+                  and u(n_.targets[0] if isinstance(n_, ast.Assign) else n_.target) == flag]
+        inits_ = [v_.elts[0] if isinstance(v_, ast.List) and len(v_.elts) == 1 else v_ for v_ in inits_]
+        rep.ob("R2-flush", root, f"{name}: presence flag `{flag}` starts False", len(inits_) == 1 and isinstance(inits_[0], ast.Constant) and inits_[0].value is False,
+               f"{name}: the presence flag does not start False: a source that completes without having emitted makes the operator flush a "
+               f"value that never arrived (None) before completing")
         has_flag = lambda s_: any(p_ and cell_name(e_) == flag for e_, p_ in s_.ctx.guards)
         # id bumps
         for k, h in outer.items():
